@@ -220,6 +220,10 @@ type mqxCall struct {
 	Qos     byte
 	ID      uint16
 	Payload string
+	Dup     bool
+	Verdict string // what the hook answered: "" (pass), "drop", "disconnect"
+	Ref     interface{} // the broker's *Client the packet belongs to
+	User    string      // user name of the connection (CONNECT)
 }
 
 type mqxMapper struct {
@@ -241,23 +245,28 @@ func (m *mqxMapper) GetHandler(name string) (context.Handler, bool) {
 
 func (p *mqxPipe) Handle(ctx *context.Context) string {
 	req := ctx.GetRequest(context.DefaultNamespace).(*mqttprot.Request)
-	c := mqxCall{Kind: p.kind, Client: req.Client().ClientID()}
+	c := mqxCall{Kind: p.kind, Client: req.Client().ClientID(), Ref: req.Client(), User: req.Client().UserName()}
 	if req.PacketType() == mqttprot.PublishType {
 		pp := req.PublishPacket()
-		c.Topic, c.Qos, c.ID, c.Payload = pp.TopicName, pp.Qos, pp.MessageID, string(pp.Payload)
+		c.Topic, c.Qos, c.ID, c.Payload, c.Dup = pp.TopicName, pp.Qos, pp.MessageID, string(pp.Payload), pp.Dup
 	}
 	p.m.mu.Lock()
 	p.m.calls = append(p.m.calls, c)
+	idx := len(p.m.calls) - 1
 	h := p.m.hook
 	p.m.mu.Unlock()
 	if h != nil {
 		resp := ctx.GetResponse(context.DefaultNamespace).(*mqttprot.Response)
-		switch h(c) {
+		v := h(c)
+		switch v {
 		case "drop":
 			resp.SetDrop()
 		case "disconnect":
 			resp.SetDisconnect()
 		}
+		p.m.mu.Lock()
+		p.m.calls[idx].Verdict = v
+		p.m.mu.Unlock()
 	}
 	return ""
 }
@@ -306,7 +315,49 @@ func mqxNewBroker(o mqxOpts) (*mqxBroker, error) {
 	return &mqxBroker{b: b, addr: fmt.Sprintf("127.0.0.1:%d", port), store: st, mapper: mp}, nil
 }
 
-func (x *mqxBroker) Close() { x.b.close() }
+// Close closes the broker. Broker.close takes the broker lock: with a broker that is wedged on that
+// lock (which a check then reports) the call is abandoned after 5s instead of hanging the harness.
+func (x *mqxBroker) Close() {
+	done := make(chan struct{})
+	go func() { x.b.close(); close(done) }()
+	select {
+	case <-done:
+	case <-time.After(5 * time.Second):
+	}
+}
+
+// mqxBlockedOnLock returns the ids of the goroutines that have one of `frames` on their stack and are
+// waiting for a mutex / RWMutex (goroutine header "[sync.RWMutex.RLock ...]", "[sync.Mutex.Lock ...]",
+// "[semacquire ...]").
+func mqxBlockedOnLock(frames ...string) map[string]bool {
+	buf := make([]byte, 1<<20)
+	for {
+		n := runtime.Stack(buf, true)
+		if n < len(buf) {
+			buf = buf[:n]
+			break
+		}
+		buf = make([]byte, 2*len(buf))
+	}
+	out := map[string]bool{}
+	for _, g := range strings.Split(string(buf), "\n\n") {
+		nl := strings.Index(g, "\n")
+		if nl < 0 || !strings.HasPrefix(g, "goroutine ") {
+			continue
+		}
+		head := g[:nl]
+		if !(strings.Contains(head, "[sync.RWMutex.") || strings.Contains(head, "[sync.Mutex.") || strings.Contains(head, "[semacquire")) {
+			continue
+		}
+		for _, f := range frames {
+			if strings.Contains(g, f) {
+				out[strings.Fields(head)[1]] = true
+				break
+			}
+		}
+	}
+	return out
+}
 
 // HTTPPublish injects a message through the broker's HTTP publish handler.
 func (x *mqxBroker) HTTPPublish(topic string, qos int, payload string) int {
@@ -330,6 +381,22 @@ func (x *mqxBroker) AdminDelete(ids ...string) int {
 	return w.Code
 }
 
+// StoreBarrier returns when every Session.store() made so far has reached the storage: store() hands
+// the encoded session to SessionManager.doStore from a goroutine of its own over an unbuffered
+// channel. First no such goroutine is left (each has been received by doStore), then a sentinel is
+// sent over the same channel: doStore takes it only after the put before it has returned.
+func (x *mqxBroker) StoreBarrier() bool {
+	if !mqxWaitNoGoroutine(10*time.Second, "mqttproxy.(*Session).store") {
+		return false
+	}
+	select {
+	case x.b.sessMgr.storeCh <- SessionStore{key: "verif-sentinel", value: ""}:
+		return true
+	case <-time.After(10 * time.Second):
+		return false
+	}
+}
+
 // Registered returns the connection registered for a client id (nil if none).
 func (x *mqxBroker) Registered(cid string) *Client {
 	x.b.RLock()
@@ -351,6 +418,7 @@ func (x *mqxBroker) NumClients() int {
 
 type mqxClient struct {
 	id   string
+	user string // user name sent in CONNECT (lets a Connect pipeline tell connections with one client id apart)
 	conn *net.TCPConn
 	wmu  sync.Mutex
 
@@ -407,22 +475,36 @@ func (c *mqxClient) readLoop() {
 
 // Connect sends CONNECT and waits for CONNACK. Returns the return code (255 = no CONNACK).
 func (c *mqxClient) Connect(clean bool, will string) (byte, error) {
+	if err := c.ConnectSend(clean, will); err != nil {
+		return 255, err
+	}
+	return c.ConnectRecv(20 * time.Second)
+}
+
+// ConnectSend writes the CONNECT packet only.
+func (c *mqxClient) ConnectSend(clean bool, will string) error {
 	cp := packets.NewControlPacket(packets.Connect).(*packets.ConnectPacket)
 	cp.ClientIdentifier = c.id
 	cp.CleanSession = clean
 	cp.ProtocolName = "MQTT"
 	cp.ProtocolVersion = 4
 	cp.Keepalive = 0
+	if c.user != "" {
+		cp.UsernameFlag = true
+		cp.Username = c.user
+	}
 	if will != "" {
 		cp.WillFlag = true
 		cp.WillTopic = will
 		cp.WillMessage = []byte("will")
 		cp.WillQos = 0
 	}
-	if err := c.write(cp); err != nil {
-		return 255, err
-	}
-	c.conn.SetReadDeadline(time.Now().Add(20 * time.Second))
+	return c.write(cp)
+}
+
+// ConnectRecv waits for the CONNACK. Returns the return code (255 = no CONNACK within d).
+func (c *mqxClient) ConnectRecv(d time.Duration) (byte, error) {
+	c.conn.SetReadDeadline(time.Now().Add(d))
 	p, err := packets.ReadPacket(c.conn)
 	c.conn.SetReadDeadline(time.Time{})
 	if err != nil {
@@ -574,7 +656,7 @@ func (c *mqxClient) Publish(topic string, qos byte, id uint16, payload string, d
 
 // PublishBurst writes one PUBLISH per id and a PINGREQ in a single write and collects the PUBACK ids
 // that arrive before the PINGRESP.
-func (c *mqxClient) PublishBurst(topic string, qos byte, ids []uint16, payload string, d time.Duration) ([]int, bool) {
+func (c *mqxClient) PublishBurst(topic string, qos byte, ids []uint16, payloads []string, d time.Duration) ([]int, bool) {
 	for {
 		select {
 		case <-c.acks:
@@ -584,11 +666,47 @@ func (c *mqxClient) PublishBurst(topic string, qos byte, ids []uint16, payload s
 		break
 	}
 	var buf bytes.Buffer
-	for _, id := range ids {
+	for i, id := range ids {
 		pp := packets.NewControlPacket(packets.Publish).(*packets.PublishPacket)
-		pp.TopicName, pp.Qos, pp.MessageID, pp.Payload = topic, qos, id, []byte(payload)
+		pp.TopicName, pp.Qos, pp.MessageID, pp.Payload = topic, qos, id, []byte(payloads[i])
 		pp.Write(&buf)
 	}
+	packets.NewControlPacket(packets.Pingreq).Write(&buf)
+	c.wmu.Lock()
+	c.conn.SetWriteDeadline(time.Now().Add(10 * time.Second))
+	_, err := c.conn.Write(buf.Bytes())
+	c.wmu.Unlock()
+	if err != nil {
+		return nil, false
+	}
+	var acks []int
+	ok := c.wait(func(p packets.ControlPacket) bool {
+		switch a := p.(type) {
+		case *packets.PubackPacket:
+			acks = append(acks, int(a.MessageID))
+		case *packets.PingrespPacket:
+			return true
+		}
+		return false
+	}, d)
+	return acks, ok
+}
+
+// PublishOne writes one PUBLISH (with the DUP flag as given) and a PINGREQ in a single write and
+// collects the PUBACK ids that arrive before the PINGRESP.
+func (c *mqxClient) PublishOne(topic string, qos byte, id uint16, dup bool, payload string, d time.Duration) ([]int, bool) {
+	for {
+		select {
+		case <-c.acks:
+			continue
+		default:
+		}
+		break
+	}
+	var buf bytes.Buffer
+	pp := packets.NewControlPacket(packets.Publish).(*packets.PublishPacket)
+	pp.TopicName, pp.Qos, pp.MessageID, pp.Payload, pp.Dup = topic, qos, id, []byte(payload), dup
+	pp.Write(&buf)
 	packets.NewControlPacket(packets.Pingreq).Write(&buf)
 	c.wmu.Lock()
 	c.conn.SetWriteDeadline(time.Now().Add(10 * time.Second))
